@@ -10,7 +10,7 @@ K_CONTEXT = [
     {'crate': 'p3-circuit', 'harness': 'c19_set_witness_contract', 'profile': 'release'},
 ]
 PROPS = {
-    'C02': {'units': ['expr', 'lower', 'opt', 'fuse', 'run19'], 'kani': K_ANALYSIS + [{'crate': 'p3-circuit', 'harness': 'c02_allocator_monotone'}]},
+    'C02': {'units': ['expr', 'lower', 'opt', 'fuse', 'fvalid', 'run19'], 'kani': K_ANALYSIS + [{'crate': 'p3-circuit', 'harness': 'c02_allocator_monotone'}]},
     'C03': {'units': ['opt', 'fuse'], 'kani': K_ANALYSIS},
     'C19': {'units': ['run19'], 'kani': K_CONTEXT},
     'C20': {'units': ['gad', 'quot', 'fri', 'periodic'], 'kani': [], 'only': {'fri': r'evaluate_polynomial|circuit_exp_by_constant|lemma_'}},
@@ -19,7 +19,7 @@ PROPS = {
     'C06': {'units': ['bind', 'pchain'], 'kani': []},
     'C17': {'units': ['cache'], 'kani': []},
     'C10': {'units': ['sched', 'tracegen', 'ptrace'], 'kani': []},
-    'C18': {'units': ['dsu', 'order', 'pphase'], 'kani': []},
+    'C18': {'units': ['dsu', 'order', 'pphase', 'fvalid'], 'kani': []},
     'C14': {'units': ['pack', 'pack2', 'pack3'], 'kani': []},
     'C12': {'units': ['bits', 'chal', 'coef', 'rcair'], 'kani': [], 'only': {'chal': r'canonical_width'}},
     'C15': {'units': ['shape', 'bshape', 'openin'], 'kani': [], 'only': {'openin': r'per_matrix_shape_and_grouping|compute_single_reduced_opening|height_group'}},
